@@ -18,8 +18,23 @@ ASSUMPTIONS = ["the independent .itp reader in pbt/itp.py", "vermouth 0.15.0 / n
 BUDGET = {"quick": (16, 150), "thorough": (16, 4000)}
 
 
+@st.composite
+def _strategy(draw):
+    spec = draw(gp.case(max_res=8))
+    if draw(st.integers(0, 3)) == 0:
+        # parameters given as macro names (gb_27 style): the file carries the names, and reading it back next to
+        # a topology that defines those macros still yields the names
+        macros = ["gb_1", "ga_2"]
+        for blk in spec["blocks"]:
+            for it in blk["inter"]:
+                if it["sec"] in ("bonds", "angles") and not it["meta"] and draw(st.integers(0, 2)) == 0:
+                    it["params"] = [it["params"][0], macros[0] if it["sec"] == "bonds" else macros[1]]
+        spec["macro_params"] = True
+    return spec
+
+
 def strategy(tier):
-    return gp.case(max_res=8)
+    return _strategy()
 
 
 EXHAUSTIVE = False
@@ -94,6 +109,8 @@ def run_library(spec, ctx):
 
 TOP = """[ defaults ]
 1 1 no 1.0 1.0
+#define gb_1 0.153 7150000.0
+#define ga_2 109.5 520.0
 [ atomtypes ]
 T1 36.0 0.0 A 0.3 1.0
 T2 36.0 0.0 A 0.3 1.0
